@@ -174,6 +174,8 @@ type c18Opts struct {
 	thrConcrete bool     // thresholds = group size (concrete) instead of symbolic in 1..size
 	// sizes(kind): enumerate the member counts of groups 1 and 2 for this transition kind (else 1 member each)
 	sizes func(kind int) bool
+	// defSize: the member count of groups 1 and 2 when sizes are not enumerated (0 = 1)
+	defSize int
 }
 
 func c18Status(label string) tsstypes.GroupStatus {
@@ -240,6 +242,9 @@ func c18Build(e *c18Env, o c18Opts) *c18State {
 		vs.Assume(hasCur) // B2: the hand-over message is signed by the current group
 	}
 	n1, n2 := 1, 1
+	if o.defSize > 0 {
+		n1, n2 = o.defSize, o.defSize
+	}
 	if o.sizes == nil || o.sizes(kind) {
 		n1 = 1 + vs.Pick("g1_members", maxN)
 		n2 = 1 + vs.Pick("g2_members", maxN)
